@@ -15,6 +15,7 @@ import (
 	"encoding/binary"
 	"encoding/hex"
 	"fmt"
+	"net/http"
 	"os"
 	"path/filepath"
 	"reflect"
@@ -31,6 +32,7 @@ import (
 
 	"github.com/alephium/wormhole-fork/node/pkg/common"
 	"github.com/alephium/wormhole-fork/node/pkg/db"
+	"github.com/alephium/wormhole-fork/node/pkg/notify/discord"
 	gossipv1 "github.com/alephium/wormhole-fork/node/pkg/proto/gossip/v1"
 	"github.com/alephium/wormhole-fork/node/pkg/reporter"
 	"github.com/alephium/wormhole-fork/node/pkg/supervisor"
@@ -424,8 +426,18 @@ func (w *world) newProcessor() {
 	sub := ev.Subscribe()
 	w.quorumC = sub.Channels.VAAQuorumC
 	mp := sub.Channels.MessagePublicationC
+	var notifier *discord.DiscordNotifier
+	if w.prog.C("notifier", 0) == 1 {
+		// the missing-signature notifier is configured, as in production (its HTTP API is simulated)
+		n, err := newSimNotifier()
+		if err != nil {
+			w.res.HarnessErr = "notifier: " + err.Error()
+			w.dead.Store(true)
+		}
+		notifier = n
+	}
 	w.p = NewProcessor(w.supCtx, w.db, w.lockC, w.setC, w.sendC, w.obsvC, w.reqC, w.injectC, w.signedInC,
-		simSigner{w.own}, gst, ev, nil, govChain, govEmitter)
+		simSigner{w.own}, gst, ev, notifier, govChain, govEmitter)
 	// whatever the runnable sets up when it starts is set up before the handlers are driven directly:
 	// Run is entered once with a context that is already cancelled and returns at once
 	pre, preCancel := context.WithCancel(w.supCtx)
@@ -580,6 +592,7 @@ func (w *world) hbDump() string {
 	if !done {
 		w.dead.Store(true)
 		w.stalled = true
+		w.violate("C14", "cleanup-stalled", "after step %s the guardian-set state is locked for good: the next cleanup pass that settles an entry blocks, nothing is retried or expired any more", w.curStep)
 		w.violate("C13", "guardian-set-state-locked-forever", "after step %s the guardian-set state can no longer be read: its lock is held by nobody who will release it, the next guardian-set update blocks the processor for good", w.curStep)
 		return "hb=? (locked)"
 	}
@@ -747,6 +760,7 @@ func (w *world) guard(f func()) {
 		w.stalled = true
 		w.violate("C17", "processor-stalled-in-handler", "the processor did not return from step %s: it is blocked (outbound request queue capacity %d)", w.curStep, w.reqCap)
 		w.violate("C13", "processor-stalled-in-handler", "the processor did not return from step %s and processes no further input (inbound queue %d/%d, outbound request queue capacity %d)", w.curStep, len(w.obsvC), cap(w.obsvC), w.reqCap)
+		w.violate("C14", "cleanup-stalled", "the processor did not return from step %s: no entry is retried or expired any more", w.curStep)
 	}
 }
 
@@ -1744,6 +1758,17 @@ func (w *world) storm() {
 	for k := 0; k < 12; k++ {
 		inbound = append(inbound, w.buildInbound(simkit.Step{Op: "vaa", A: encodeMsg(k%14, 0, 0, 0, k%4, 1), B: -1, D: 0}))
 	}
+	// the gossip side keeps storing heartbeats in the state it shares with the processor (whose
+	// cleanup pass reads them when the notifier is configured)
+	wg.Add(1)
+	go func() {
+		defer wg.Done()
+		for k := 0; k < 60; k++ {
+			key := members[k%len(members)]
+			_ = w.p.gst.SetHeartbeat(simAddrs[key], peer.ID(fmt.Sprintf("storm-peer-%d", k%5)), &gossipv1.Heartbeat{NodeName: "storm", Counter: int64(k)})
+			time.Sleep(450 * time.Millisecond)
+		}
+	}()
 	wg.Add(2)
 	go func() {
 		defer wg.Done()
@@ -1842,6 +1867,12 @@ func (h procHarness) execOnce(p *simkit.Program) (*simkit.Result, *world) {
 	os.RemoveAll(w.dir)
 	defer os.RemoveAll(w.dir)
 	w.supCtx = supervisorContext()
+	fd := &fakeDiscord{}
+	if p.C("notifier", 0) == 1 {
+		oldT := http.DefaultTransport
+		http.DefaultTransport = fd
+		defer func() { http.DefaultTransport = oldT }()
+	}
 
 	body := func(t *testing.T) {
 		w.start = time.Now()
@@ -1893,6 +1924,7 @@ func (h procHarness) execOnce(p *simkit.Program) (*simkit.Result, *world) {
 		synctest.Test(h.t, body)
 	}()
 
+	w.stats.ProbeN("missing-signature-notifications", fd.posts.Load())
 	w.stats.ProbeN("published", int64(w.nPublished))
 	w.stats.ProbeN("obs-rejected", int64(w.nRejected))
 	w.stats.ProbeN("obs-accepted", int64(w.nAcceptedObs))
